@@ -52,6 +52,14 @@ GROUPS["fontbe"] = {
         "fontbe/src/os2.rs": "harness/fontbe/os2.rs",
     },
 }
+GROUPS["fea-rs"] = {
+    "package": "fea-rs",
+    "cargo_args": ["--lib"],
+    "dep_crates": ["fea-rs"],
+    "harness": {
+        "fea-rs/src/parse/lexer.rs": "harness/fea-rs/lexer.rs",
+    },
+}
 GROUPS["fontir-c4"] = dict(GROUPS["fontir"], shim_features=[])
 
 HARNESSES = []
@@ -174,7 +182,22 @@ H("c17_metrics_builder_1", "C17", "fontbe", "metrics_and_limits", funcs=[M + "::
 H("c19_metrics_update_no_overflow", ["C19", "C17"], "fontbe", "metrics_and_limits", flags=CHECKED_FLAGS, funcs=[M + "::MetricsBuilder::update"],
   bound="advance u16, lsb i16 full range, extent 0..65535", oracle="no arithmetic overflow; rsb/extent clamp to i16 as documented")
 
+L = "fea-rs/src/parse/lexer.rs"
+_lexfuncs = [L + "::Lexer::next_token", L + "::Lexer::{whitespace,comment,string,hyphen_or_minus,number,cid,glyph_class_name,eat_ident,ident,path}",
+             L + "::ExpectingPath::transition", "fea-rs/src/parse/lexer/lexeme.rs::Kind::from_keyword"]
+_lexoracle = "every token consumes input; token lengths track the cursor and sum to the window; Eof (empty) only at the end; terminates within N+1 tokens; no panic"
+H("c13_lexer_lossless_ascii_n3", "C13", "fea-rs", "parse::lexer", funcs=_lexfuncs, bound="every window of 3 ASCII bytes (0x00..0x7F), every lexer state (2 flags x 3 path states); unwind 7", oracle=_lexoracle)
+H("c13_lexer_lossless_ascii_n4", "C13", "fea-rs", "parse::lexer", funcs=_lexfuncs, bound="every window of 4 ASCII bytes, every lexer state; unwind 7", oracle=_lexoracle)
+H("c13_lexer_lossless_ascii_n5", "C13", "fea-rs", "parse::lexer", tier="thorough", funcs=_lexfuncs, bound="every window of 5 ASCII bytes, every lexer state; unwind 8", oracle=_lexoracle)
+H("c13_lexer_char_boundaries_2byte", "C13", "fea-rs", "parse::lexer", funcs=_lexfuncs, bound="ASCII byte, one 2-byte char (C2..DF 80..BF), ASCII byte; every lexer state",
+  oracle="as above, and no token boundary falls inside the 2-byte char")
+H("c13_expecting_path_transitions", "C13", "fea-rs", "parse::lexer", funcs=[L + "::ExpectingPath::transition"], bound="3 states x 5 token kinds",
+  oracle="InPath is entered only by `(` directly after `include` (whitespace keeps the armed state)")
+
 PROPERTIES = {
+    "C13": {"outside": "the parser proper (Parser, AstSink, grammar, contextual-rule reparse), include resolution and the include graph (IncludeGraph::validate exhausted CBMC at 21-23 GB), "
+                       "diagnostics ranges, validation; windows longer than 5 bytes; chars of 3 and 4 bytes",
+            "assumptions": ["'the tree's token texts concatenate to the input' is decided as 'the lexeme lengths the tree is built from sum to the input length, at char boundaries'"]},
     "C19": {"outside": "narrowing sites inside job bodies (waived, listed in the site scan), outline point coordinates (write-fonts/kurbo), kerning/anchor values inside fea-rs builders",
             "assumptions": ["overflow and panic checks ON for the C19 harnesses (dev profile); native replay runs dev and release"]},
     "C17": {"outside": "maxp composite maxima, composite bounding boxes, head bbox union, loca format, average char width, first/last char index, max context: assembled in job bodies over Context",
